@@ -262,7 +262,9 @@ func (db *DB) UpdateRetainedCheckpoints(ids []uint64) error {
 }
 
 func (db *DB) NeedsTable(filePath string) bool {
-	return db.checkpoints.IncludesTable(filePath)
+	// The table is needed while the live level set or a retained checkpoint
+	// references it.
+	return db.currentSSTables().IncludesTableURI(filePath) || db.checkpoints.IncludesTable(filePath)
 }
 
 // Close waits for the background flush and compaction tasks so that an
